@@ -506,6 +506,65 @@ def sheetEntries (s : Sheet) : Book :=
 def toBook (wb : Workbook) : Book :=
   (sheetNamesKey, .names (wb.map (·.name))) :: wb.flatMap sheetEntries
 
+/-! ## a decoded spreadsheet: `x*_to_dict_normal_sheet`, `process_workbook` (170-209, 271-300)
+
+The third-party decoder (xlrd / openpyxl) is a parameter: the model starts from the typed cell grid
+it delivers, one grid per sheet, rows padded or ragged as delivered. -/
+
+abbrev Grid := List (List Cell)
+
+/-- `c.value for c in first_row`: a header value is `None` or a string; a typed (numeric / boolean)
+header cell makes `column_header.strip()` raise — outside the modelled fragment. -/
+def headerValues : List Cell → Except Err (List (Option Str))
+  | [] => .ok []
+  | .none :: cs => match headerValues cs with | .ok l => .ok (.none :: l) | .error e => .error e
+  | .text s :: cs => match headerValues cs with | .ok l => .ok (some s :: l) | .error e => .error e
+  | _ :: _ => .error .unsupported
+
+/-- a row dict of `get_excel_rows` as a row of the workbook structure (all keys are strings) -/
+def liftRow (r : Row) : KRow := r.map fun (k, v) => (some k, v)
+
+/-- `xlsx_to_dict_normal_sheet` / `xls_to_dict_normal_sheet`: headers from the first row, data rows
+limited to `len(headers)` columns (`max_col=len(headers)` / `range(len(headers))`), the header dict
+list from the non-`None` headers. -/
+def sheetOfGrid (grid : Grid) : Except Err (List Row × List (List Str)) :=
+  match grid with
+  | [] => .ok ([], [])
+  | first :: rest =>
+    match headerValues first with
+    | .error e => .error e
+    | .ok hv =>
+      match getHeaders hv with
+      | .error e => .error e
+      | .ok hs => .ok (getRows hs (rest.map fun r => r.take hs.length), l2dl (hs.filterMap id))
+
+/-- the tuple assignment `result_book[name], result_book[f"{name}_header"] = …normal_sheet(…)` -/
+def excelSheet (key : Str) (grid : Grid) (b : Book) : Except Err Book :=
+  match sheetOfGrid grid with
+  | .error e => .error e
+  | .ok (rows, hdr) => .ok (dset (key ++ headerSuffix) (.header hdr) (dset key (.rows (rows.map liftRow)) b))
+
+/-- the loop of `process_workbook` (189-209, 280-300) over the decoded sheets `(title, grid)` -/
+def excelProcess (single : Bool) : List (Str × Grid) → Book → Except Err Book
+  | [], b => .ok b
+  | (nm, grid) :: rest, b =>
+    if !isAscii nm then .error .unsupported else
+    let b1 := dset sheetNamesKey (.names (bookNames b ++ [nm])) b
+    let low := lowerAscii nm
+    if supported.contains low then
+      match excelSheet low grid b1 with
+      | .error e => .error e
+      | .ok b2 => excelProcess single rest b2
+    else if single then
+      match excelSheet surveyKey grid b1 with
+      | .error e => .error e
+      | .ok b2 => excelProcess single rest b2
+    else excelProcess single rest b1
+
+/-- `xlsx_to_dict` / `xls_to_dict` after decoding -/
+def excelToDict (sheets : List (Str × Grid)) : Except Err Book :=
+  excelProcess (sheets.length = 1) sheets [(sheetNamesKey, .names [])]
+
 /-! ## delivery channels: `get_definition_data`, `definition_to_dict` (716-823) -/
 
 inductive FileType | xlsx | xlsm | xls | md | csv
